@@ -1,5 +1,6 @@
 """EXT - behaviour beyond the twenty listed properties (Extended.tla): stack_curves, named null policies, index_unit=,
 dtypes=.  Not registered in MANIFEST.json (no property id); deviations are reported in evidence/EXT.json only."""
+import os
 import random
 
 import numpy as np
@@ -35,6 +36,7 @@ def run(ctx):
         insts = rng.sample(stack, 1500) + rng.sample(nulls, 1500) + rest
     ctx.exhaustive = ctx.tier == "thorough"
     events = []
+    work = tlc.scratch("ext")
     for inst in insts:
         k = inst["kind"]
         obs = None
@@ -80,6 +82,24 @@ def run(ctx):
                                 obs = ["Other", name]
                         elif any(it.original_mnemonic == "XA" for it in list.__iter__(sec)):
                             obs = ["Items", name]
+            elif k == "enc":
+                first = {"ascii": b"~Version", "late": b"~Version", "verylate": b"~Version", "first1252": b"~Version \xe9",
+                         "first81": b"~Version \x81"}[inst["content"]]
+                if inst["bom"]:
+                    first = {"ascii": b"~Version", "late": b"~Version", "verylate": b"~Version", "first1252": "~Version \u00e9".encode("utf-8"),
+                             "first81": "~Version \u0081".encode("utf-8")}[inst["content"]]
+                later = b"WELL. w : w\n"
+                if inst["content"] in ("late", "verylate") and not inst["bom"]:
+                    later = (b"" if inst["content"] == "late" else b"".join(b"P%04d. 1 : filler\n" % i for i in range(600))) + b"WELL. caf\xe9 : w\n"
+                raw = (b"\xef\xbb\xbf" if inst["bom"] else b"") + first + b"\nVERS. 2.0 : v\nWRAP. NO : w\n~Well\n" + later + b"~A\n1 2\n"
+                path = os.path.join(work, "enc.las")
+                with open(path, "wb") as f:
+                    f.write(raw)
+                kw = {"autodetect_encoding": False}
+                if inst["explicit"] != "none":
+                    kw["encoding"] = inst["explicit"]
+                las = lasio.read(path, **kw)
+                obs = str(las.encoding)
             elif k == "dtypes":
                 spec = inst["spec"]
                 kinds = {"f": float, "i": int, "U": str}
